@@ -1,9 +1,10 @@
 """C17 — embedded file bytes and file metadata are exact (P-tier: hashing kernel)."""
-from . import hashing, overlay
+from . import hashing, overlay, packer
 
 
 def build(reg):
-    specs = hashing.add_all(reg)
+    specs = packer.add_packer(reg)  # (registers the hashing kernel as well)
+    specs = [reg.specs[k] for k in reg.specs if k[1] in ("hashsum", "qualified_hashsum", "file_hashsum", "hashsum_file")] + specs
     # IH5 driver: what a copy copies and what counts as a deletion marker (embedded bytes must neither be taken from another node nor vanish)
     specs = specs + [x for x in overlay.add_writers(reg) + overlay.add_copy_move(reg) if "C17" in x.props or x.qual in ("IH5Group.copy", "IH5Group.move")]
-    return {"verify": specs, "lemmas": [], "trusted": hashing.TRUSTED + [overlay.T1_WRITE, overlay.T_NUMPY], "assumptions": ["bytes modelled as z3 strings over code points 0..255"]}
+    return {"verify": specs, "lemmas": [], "trusted": hashing.TRUSTED + [overlay.T1_WRITE, overlay.T_NUMPY] + packer.T_PACK, "assumptions": ["bytes modelled as z3 strings over code points 0..255"]}
